@@ -15,7 +15,7 @@ META = {
     'text': 'Breadth-first search over histories of wrapped calls on the production wrapper; states are digests of every writable symbol of the library plus '
             'process attributes; every (reachable state, call letter) pair is executed; when the state set closes the result holds for histories of any length '
             'over the alphabet. All ordered pairs (and triples of a reduced alphabet in thorough) are executed in addition, as a guard against state outside the digest.'
-            ' Added: strings of 2^31 bytes (mid-argv, as the sum, as the path, with a NULL argv) interleaved with ordinary calls, and texts that fill the limit exactly and end in a partial multi-byte character.',
+            ' Added: strings of 2^31 bytes (mid-argv, as the sum, as the path, with a NULL argv) interleaved with ordinary calls, and texts that fill the limit exactly and end in a partial multi-byte character; the path-fallback histories also behind calls abandoned inside the library (siglongjmp).',
     'note': 'Alphabet: execv/execve x 3 paths x 11 argv shapes (NULL, argv[0]==NULL, empty strings, lengths limit-1/limit/limit+1/10x, 3000 entries) x 2 data-source limits, both builds. '
             'How long a truncated prefix may be is C05\'s business; here any prefix is accepted.',
 }
@@ -193,10 +193,21 @@ def run(ck):
             nullc = ('call execve %s N [] -1 2' % H.hx(b'/bin/nullargv'), b'/bin/nullargv|/bin/nullargv')
             a0c = ('call execv %s [] N -1 2' % H.hx(b'/bin/a0null'), b'/bin/a0null|/bin/a0null')
             shortc = ('call execve %s %s [] -1 2' % (H.hx(b'/bin/s'), H.vec([H.hx(b's')])), b's|/bin/s')
-            for seq in ([longc, nullc, a0c, shortc], [longc, a0c, longc, nullc], [nullc, longc, shortc, a0c, nullc]):
+            # ... and the same after a call that was ABANDONED inside the library (blocked on a FIFO nobody reads, left by siglongjmp from the program's own
+            # timeout handler; a vfork child killed inside the wrapper leaves the same): its end-of-call clean-up never ran, so whatever the library
+            # keeps per thread about "the current call" still describes the abandoned one when the next call begins
+            stale = b'[snoopy]\nmessage_format = %%{cmdline}|%%{filename}\ndatasource_message_max_length = %d\noutput = file:stuck\n' % dsmax
+            abandon = [('fillfifo ' + H.hx(b'stuck'), None), ('cfg ' + H.hx(stale), None), ('abandon', None), ('cfg ' + H.hx(cfg), None)]
+            for seq in ([longc, nullc, a0c, shortc], [longc, a0c, longc, nullc], [nullc, longc, shortc, a0c, nullc],
+                        abandon + [nullc, a0c, shortc], abandon + [a0c, nullc], abandon + [shortc, nullc, longc], [longc] + abandon + [nullc], abandon + abandon + [nullc, shortc]):
                 r = H.run_script(v['h_exec'], os.path.join(ck.workdir, 'order-%s-%d' % (vname, dsmax)), '\n'.join(['sinks pipe', 'lean 1', 'cfg ' + H.hx(cfg)] + [c for c, _ in seq]), env_extra={'VERIF_HEXMAX': '8192'}, timeout=120)
-                calls = [l for l in r['lines'] if 'call' in l]
-                tag = '%s:ds=%d:format=cmdline_first' % (vname, dsmax)
+                n_ab = sum(1 for l in r['lines'] if l.get('call') == 'abandoned' and not l.get('returned_normally'))
+                if n_ab != sum(1 for c, _ in seq if c == 'abandon') and r['done'] and not r['san']:
+                    raise RuntimeError('the abandoned call was not abandoned: %r' % (r['lines'][-4:],))
+                calls = [l for l in r['lines'] if 'call' in l and l.get('call') != 'abandoned']
+                was_abandoned = any(c == 'abandon' for c, _ in seq)
+                seq = [x for x in seq if x[1] is not None]
+                tag = '%s:ds=%d:format=cmdline_first%s' % (vname, dsmax, ':after_an_abandoned_call' if was_abandoned else '')
                 if not r['done'] or r['san'] or len(calls) != len(seq):
                     ck.violation('C06:abort:%s' % tag, {'rc': r['rc'], 'sanitizer': r['san'][:1], 'stderr': r['stderr'][-300:]})
                     continue
